@@ -79,6 +79,7 @@ pub(crate) fn event_control(s: Span) -> IResult<Span, EventControl> {
 pub(crate) fn event_control_event_identifier(s: Span) -> IResult<Span, EventControl> {
     let (s, a) = symbol("@")(s)?;
     let (s, b) = hierarchical_event_identifier(s)?;
+    let (s, _) = peek(not(symbol("::")))(s)?;
     Ok((
         s,
         EventControl::EventIdentifier(Box::new(EventControlEventIdentifier { nodes: (a, b) })),
